@@ -91,6 +91,16 @@ def reference(m, ss):
                 continue
             srcs = source_values(ss, p)
             if not mo.multiple:
+                if mo.deprecated:
+                    # a deprecated parameter stays out of the result unless the LAST assignment differs from the default
+                    def text_of(ws):
+                        # the comparison the code documents: the texts of the words, a lone unquoted None/Auto being the atom
+                        if len(ws) == 1 and ws[0].quote_token is None and ws[0].value.lower() in ("none", "auto"):
+                            return ws[0].value.lower()
+                        return [w.value for w in ws]
+                    if not srcs or text_of(srcs[-1].words) == text_of(mo.words):
+                        exp[p] = ("missing",)
+                        continue
                 d = mo if not srcs else mo.fetch(source=srcs[-1])
                 exp[p] = _fetch.dump(d.extract())
             else:
@@ -131,7 +141,7 @@ def run(ctx):
         if ctx.time_left() < 30:
             ctx.notes.append("stopped early on time budget")
             break
-        tree, mt, srcs = _fetch.gen(rng, nested=(i % 5 == 4), n_sources=rng.choice([1, 2, 2, 3]))
+        tree, mt, srcs = _fetch.gen(rng, nested=(i % 5 == 4), n_sources=rng.choice([1, 2, 2, 3]), deprecated=(i % 3 == 0))
         m = freephil.parse(input_string=mt)
         case = {"master": mt, "sources": srcs}
         try:
@@ -173,7 +183,8 @@ def run(ctx):
                 if got != base:
                     f = "result changes when the sources are rewritten: " + label
                     break
-        if f is None and len(srcs) >= 2 and not _fetch.has_nested_multiple(tree):
+        if f is None and len(srcs) >= 2 and not _fetch.has_nested_multiple(tree) and ".deprecated = True" not in mt:
+            # (a result omits deprecated parameters left at their default, so it cannot serve as a master for them)
             # merging in two steps (the first result serves as the master of the second merge) = merging at once
             try:
                 w1 = m.fetch(sources=[freephil.parse(input_string=t) for t in srcs[:1]])
